@@ -40,7 +40,18 @@ def run_property(prop, tier, repo_root, seed, open_findings):
     obligations = []
     undecided = []
     violations = []
-    for key in u['functions']:
+    # the unit is closed under "relies on the contract of": a function whose contract a proof uses is
+    # verified in the same run (a change inside a callee must fail the callee's own obligations here, not
+    # only under another property)
+    fn_todo = list(u['functions'])
+    fn_done = set()
+    while True:
+        fn_todo.extend(sorted(k for k in eng.contracts_called if k not in fn_todo))
+        fn_pending = [k for k in fn_todo if k not in fn_done]
+        if not fn_pending:
+            break
+        key = fn_pending[0]
+        fn_done.add(key)
         c = eng.sidecar.contracts.get(key)
         if c is None:
             undecided.append({'name': key, 'reason': 'no contract'})
